@@ -1,8 +1,8 @@
 """C06 - every reported location denotes exactly the text of its node.
 
 (M) spec/LocFindMC.tla: the brute-force by-location search definitions (spec/LocFind.tla) are well-defined on every
-    well-formed span tree within the constants, and the loops of fst.py compute them (with the 'top' deviation
-    characterised exactly).
+    well-formed span tree within the constants, and the loops of fst.py compute them in every mode (trees
+    with decorator children included; no named deviation).
 (V) every node of every corpus program x layout variant (+ multi-byte mutators, + trees after edit steps) is recorded
     (pfst's loc / bloc / pars() / byte accessors + CPython positions + tokenize tokens) and judged by TLC against
     spec/LocLaws.tla; find_* answers for node spans, token gaps and random rectangles are judged against spec/LocFind.tla
@@ -227,7 +227,7 @@ def run(ctx):
         'FSTView.loc is not covered',
     ]
     quick = ctx.quick
-    ctx.model('LocFindMC', 'LocFindMC' if quick else 'LocFindMC_thorough', required=('AddNode', 'Ask'))
+    ctx.model('LocFindMC', 'LocFindMC' if quick else 'LocFindMC_thorough', required=('AddNode', 'AddDeco', 'Ask'))
 
     import os
     os.environ.setdefault('JAVA_TOOL_OPTIONS', '-XX:ParallelGCThreads=2')  # many JVMs side by side (trace validation)
@@ -349,10 +349,9 @@ def selftest(ctx):
             fn(tr)
         traces.append(tr)
     verd = ctx.validate(L.batch(traces), module='LocTrace', heap='2g')
-    known = {'top-returns-lowest-exact', 'decorator-region:skipped'}
     ok = True
     for i, (name, fn, clause) in enumerate(cases):
-        bad = sorted({c for (_, c, k) in verd[i + 1]['bad'] if k not in known})
+        bad = sorted({c for (_, c, k) in verd[i + 1]['bad']})
         good = (bad == []) if clause is None else (clause in bad)
         ok &= good
         print(f'selftest {"ok " if good else "BAD"} corrupt {name!r}: expected {clause}, TLC rejected {bad}')
